@@ -69,10 +69,10 @@ example : eraseRange 4 [1, 2, 3, 4] 1 3 = .ok ([1, 4], 1) := by decide
 
 /-- `erase_if` (find_if + the remove_if loop + erase of the tail) keeps exactly the elements that do not
     satisfy the predicate, in order, and returns how many were removed -/
-theorem eraseIf_refines (cap : Nat) (d : V) (p : Nat → Bool) (hc : cap < 2 ^ 64) (hcap : d.length ≤ cap) :
-    eraseIf cap d p = .ok (d.filter (fun v => !p v), d.countP p) := eraseIf_eq d p hc hcap
+theorem eraseIf_refines (cap : Nat) (k : Kind) (d : V) (p : Nat → Bool) (hc : cap < 2 ^ 64) (hcap : d.length ≤ cap) :
+    eraseIf cap k d p = .ok (d.filter (fun v => !p v), d.countP p) := eraseIf_eq k d p hc hcap
 
-example : eraseIf 5 [1, 2, 3, 4, 5] (modPred 2 1) = .ok ([2, 4], 3) := by decide
+example : eraseIf 5 .hd [1, 2, 3, 4, 5] (modPred 2 1) = .ok ([2, 4], 3) := by decide
 
 /-- the six relational operators as tetl derives them from `equal` and `lexicographical_compare`
     are `=`, `≠`, and the lexicographic `<`, `≤`, `>`, `≥` -/
@@ -258,7 +258,7 @@ theorem unary_frame_structural (s s' : Sys) (k : Nat) (op : Op) (o : Out) (hb : 
         | error e => rw [h2] at h; cases h
         | ok r => rw [h2] at h; exact fin r h
       · rw [if_neg ht] at h
-        cases h2 : step1 s.cap op d with
+        cases h2 : step1 s.cap s.kind op d with
         | error e => rw [h2] at h; cases h
         | ok r => rw [h2] at h; exact fin r h
 
